@@ -83,6 +83,7 @@ class TextSession(impl.Session):
     """records what the application receives; returns what the harness tells it to"""
     LOG = None
     NEXT = None
+    TABLE = None     # (table name, [column names]) declared by the application for COM_FIELD_LIST
 
     async def init(self, connection):
         await super().init(connection)
@@ -104,7 +105,10 @@ class TextSession(impl.Session):
         await super().use(database)
 
     async def schema(self):
-        return {}
+        t = type(self).TABLE
+        if t is None:
+            return {}
+        return {self.database or "db": {t[0]: {c: "INT" for c in t[1]}}}
 
 
 class RefClient:
@@ -314,6 +318,29 @@ def history(ctx, rng, lib_sets):
                                     charset_now=c.client, sent=(lit, text), got=got and got[1]), steps, views
                     if got[2] != {an: av}:
                         return dict(problem="query attributes of COM_STMT_EXECUTE garbled", charset=c.client, sent={an: av}, got=got[2]), steps, views
+            elif r < 0.68:
+                # COM_FIELD_LIST: the table name travels in the client character set, the definitions come back in the results one
+                both = [ch for ch in repertoire(c.client) if c.results in REF and ch in set(repertoire(c.results)) and ch not in " _"]
+                if not both:
+                    continue
+                mk = lambda n: "".join(rng.choice(both) for _ in range(n))   # noqa: E731
+                table, cols_ = "t" + mk(3), ["c" + mk(2), "d" + mk(4)]
+                TextSession.TABLE = (table, cols_)
+                rep = c.command(bytes([cl.COM_FIELD_LIST]) + c.enc(table) + b"\0")
+                TextSession.TABLE = None
+                steps.append("KText")
+                got_names, got_tables = [], []
+                for _q, p in rep:
+                    if p[:4] == b"\x03def":
+                        pos, fields = 0, []
+                        for _f in range(6):
+                            ln = p[pos]; pos += 1
+                            fields.append(p[pos:pos + ln]); pos += ln
+                        got_tables.append(fields[2].decode(REF[c.results], errors="replace"))
+                        got_names.append(fields[4].decode(REF[c.results], errors="replace"))
+                if got_names != cols_ or any(t != table for t in got_tables):
+                    return dict(problem="COM_FIELD_LIST: table / column names garbled", client_charset=c.client, results_charset=c.results,
+                                declared=(table, cols_), got=(got_tables[:1], got_names)), steps, views
             elif r < 0.8:
                 # application query: text in the SQL and in query attributes; result with names / cells in several character sets
                 text = sample(rng, c.client)
